@@ -78,6 +78,7 @@ type poolUse struct {
 	pkg, fn      string
 	line         int
 	putKind      string // "defer" | "stmt" | "none"
+	puts         int    // number of Put sites (deferred + plain) for this object: must be exactly one
 	usesAfterPut int
 	escapes      int // stored to a global / field / returned
 }
@@ -851,11 +852,27 @@ func (a *fnAnalysis) callWrites(c *ast.CallExpr) {
 				a.emit(c, "binary.Put", c.Args[0], a.originOf(c.Args[0]))
 			}
 		case strings.HasSuffix(rt, "sync.Pool"):
-			// Get/Put handled by the pool facts
+			// Get/Put handled by the pool facts; any other method of a pool is library state
+			if fn.Name() != "Get" && fn.Name() != "Put" {
+				a.emit(c, "sync.Pool."+fn.Name(), sel.X, a.originOf(sel.X))
+			}
 		default:
 			// hash.Hash.Write/Sum, io.Reader etc.: write their receiver (a hash state): record
 			if fn.Name() == "Write" || fn.Name() == "Reset" {
 				a.emit(c, "method."+fn.Name(), sel.X, a.originOf(sel.X))
+			} else {
+				// any other external method on a PACKAGE-LEVEL object (sync.Map.Store/Load, sync.Mutex.Lock,
+				// atomic.Value, …) is treated as a write of that object: library state shared between calls
+				o := a.originOf(sel.X)
+				g := oset{}
+				for k := range o {
+					if strings.HasPrefix(string(k), "global:") {
+						g.add(k)
+					}
+				}
+				if len(g) > 0 && !strings.Contains(rt, "reflect.") {
+					a.emit(c, "extern-method-on-global."+fn.Name(), sel.X, g)
+				}
 			}
 		}
 		return
@@ -971,11 +988,15 @@ func poolFacts() {
 				case *ast.DeferStmt:
 					if isPut(info, s.Call, obj) {
 						pu.putKind = "defer"
+						pu.puts++
 					}
 				case *ast.ExprStmt:
-					if cc, ok := s.X.(*ast.CallExpr); ok && isPut(info, cc, obj) && pu.putKind != "defer" {
-						pu.putKind = "stmt"
-						putPos = s.End()
+					if cc, ok := s.X.(*ast.CallExpr); ok && isPut(info, cc, obj) {
+						pu.puts++
+						if pu.putKind != "defer" {
+							pu.putKind = "stmt"
+							putPos = s.End()
+						}
 					}
 				case *ast.ReturnStmt:
 					for _, r := range s.Results {
@@ -1145,8 +1166,8 @@ func main() {
 	sb.WriteString("]\n\n")
 	sb.WriteString("def poolUses : List PoolUse := [\n")
 	for i, p := range pools {
-		fmt.Fprintf(&sb, "  { pkg := %s, fn := %s, line := %d, putKind := %s, usesAfterPut := %d, escapes := %d }",
-			strconv.Quote(p.pkg), strconv.Quote(p.fn), p.line, strconv.Quote(p.putKind), p.usesAfterPut, p.escapes)
+		fmt.Fprintf(&sb, "  { pkg := %s, fn := %s, line := %d, putKind := %s, puts := %d, usesAfterPut := %d, escapes := %d }",
+			strconv.Quote(p.pkg), strconv.Quote(p.fn), p.line, strconv.Quote(p.putKind), p.puts, p.usesAfterPut, p.escapes)
 		if i+1 < len(pools) {
 			sb.WriteString(",")
 		}
